@@ -432,6 +432,29 @@ let run_zc (ops : string list) : string =
   Stdlib.String.concat "," (Stdlib.List.map (function Resolver.ZCreated -> "created" | Resolver.ZClosed Resolver.App -> "closedApp"
                                                       | Resolver.ZClosed Resolver.Lib -> "closedLib" | Resolver.ZRaise -> "raise") evs)
 
+(* ---- C18 ---- *)
+let run_reconnect (labels : string list) : string =
+  let parse w = match Stdlib.String.split_on_char ':' w with
+    | ["start"] -> Reconnect.LStart | ["stop"] -> Reconnect.LStop | ["timer"] -> Reconnect.LTimer | ["record"] -> Reconnect.LRecord
+    | ["startdone"; r] -> Reconnect.LStartDone (match r with "ok" -> Reconnect.OOk | "auth" -> Reconnect.OErrAuth | _ -> Reconnect.OErrOther)
+    | ["finishdone"; r] -> Reconnect.LFinishDone (match r with "ok" -> Reconnect.OOk | "auth" -> Reconnect.OErrAuth | _ -> Reconnect.OErrOther)
+    | ["end"; e] -> Reconnect.LSessionEnd (e = "1") | ["adv"; t] -> Reconnect.LAdv (z_of_string t)
+    | _ -> failwith ("rlabel " ^ w) in
+  let show = function
+    | Reconnect.OAttempt -> "A" | Reconnect.OAttemptCancelled -> "AC" | Reconnect.OConnect -> "C"
+    | Reconnect.ODisconnect e -> "D" ^ b01 e | Reconnect.OConnectError -> "E" | Reconnect.OStopped -> "S"
+    | Reconnect.OListen b -> "L" ^ b01 b | Reconnect.OTimerSet d -> "T" ^ string_of_z d in
+  let show_state s = (match s.Reconnect.r_state with Reconnect.RDisc -> "DISCONNECTED" | Reconnect.RConnecting -> "CONNECTING"
+                                                    | Reconnect.RHandshaking -> "HANDSHAKING" | Reconnect.RReady -> "READY")
+                     ^ "," ^ b01 s.Reconnect.r_stopped ^ b01 s.Reconnect.r_listening ^ "," ^ string_of_z s.Reconnect.r_tries in
+  let buf = Stdlib.Buffer.create 256 in
+  let rec go s ls i = match ls with
+    | [] -> ()
+    | w :: r -> (match Reconnect.rstep s (parse w) with
+        | None -> Stdlib.Buffer.add_string buf (Printf.sprintf "|!disabled@%d:%s" i w)
+        | Some (s1, o) -> Stdlib.Buffer.add_string buf ("|" ^ show_state s1 ^ "#" ^ Stdlib.String.concat "," (Stdlib.List.map show o)); go s1 r (i + 1)) in
+  go Reconnect.rl_init labels 0; Stdlib.Buffer.contents buf
+
 let handle (line : string) : string =
   match words line with
   | "venc" :: v :: [] -> hex_of_bytes (Varint.enc (n_of_hex v))
@@ -464,6 +487,8 @@ let handle (line : string) : string =
      | None -> "none"
      | Some l -> if l = [] then "-" else Stdlib.String.concat "," (Stdlib.List.map (fun (t, p) -> hex_of_n t ^ ":" ^ hex_of_bytes p) l))
   | "client" :: nz :: ex :: ka :: scr :: labels -> run_client (nz = "1") (ex = "1") (int_of_string ka) scr labels
+  | "reconnect" :: labels -> run_reconnect labels
+  | ["backoff"; n] -> string_of_z (Reconnect.backoff_seconds (z_of_string n))
   | "resolve" :: hosts -> run_resolve hosts
   | "zc" :: ops -> run_zc ops
   | "cmd" :: name :: major :: minor :: args -> run_cmd name major minor args
